@@ -9,6 +9,9 @@ def run(P, R, L):
              "value is only returned after the helper ran; when a child iterator runs out the two-level iterators move on to the "
              "next block / file; seek* record the matching direction")
     K.pair7_direction(P, R, L)
+    R.clause("PAIR-8", "a change of direction repositions the underlying iterator before the search for the next visible entry (DatabaseIterator), "
+             "and the merging iterator steps its current child before choosing and re-seeks the others")
+    K.pair8_reversal(P, R, L)
     R.clause("GRD-3", "the collapse to user-visible entries hides entries newer than the iterator's sequence on every yielding path")
     K.grd3_sequence_filter(P, R, L)
     R.not_decided += ["which element a data-dependent loop stops on (the equivalence with a sorted-map cursor)",
